@@ -21,7 +21,16 @@ type peSpec struct {
 	Machine    uint16
 	Seed       int64
 	VSizes     []int // per section (file order): -1 keep the random VirtualSize, otherwise set it to this value (0: "use SizeOfRawData")
+	// An image without a certificate table whose directory entry still carries an address (Size = 0): what a tool
+	// leaves behind that removes the signatures by clearing the size, or simply a changed excluded field. The entry
+	// is excluded from the digest and names no table, so such an image is as well-formed as one with a zero entry.
+	// 0: zero entry; otherwise an address class of staleAddrKinds, CertAddrSalt picking the position inside a range.
+	CertAddrKind int
+	CertAddrSalt int
 }
+
+// classes of a left-over certificate-table address (index = CertAddrKind)
+var staleAddrKinds = []string{"zero", "one", "in-headers", "in-sections", "end-of-sections", "in-trailing", "file-end", "padded-file-end", "beyond-file", "max-uint32"}
 
 func (s peSpec) class() string {
 	k := "pe32"
@@ -41,7 +50,11 @@ func (s peSpec) class() string {
 			gaps = true
 		}
 	}
-	return fmt.Sprintf("%s/sec%d/zero%d/ordered=%v/gaps=%v/trail%s/certs%d", k, min(len(s.SecSizes), 9), min(nz, 2), ordered, gaps, sizeClass(s.Trailing), len(s.CertBodies))
+	cl := fmt.Sprintf("%s/sec%d/zero%d/ordered=%v/gaps=%v/trail%s/certs%d", k, min(len(s.SecSizes), 9), min(nz, 2), ordered, gaps, sizeClass(s.Trailing), len(s.CertBodies))
+	if len(s.CertBodies) == 0 && s.CertAddrKind > 0 && s.CertAddrKind < len(staleAddrKinds) {
+		cl += "/addr=" + staleAddrKinds[s.CertAddrKind]
+	}
+	return cl
 }
 
 func genPeSpec(c *Ctx, big bool) peSpec {
@@ -86,6 +99,12 @@ func genPeSpec(c *Ctx, big bool) peSpec {
 		s.CertBodies = []int{8 * (1 + r.Intn(100)), 1 + r.Intn(700)}
 	}
 	s.Machine = []uint16{0x8664, 0x14c, 0xaa64}[r.Intn(3)]
+	// every third image: a directory entry (address != 0, size 0); without a table it is only looked at when
+	// the image is signed
+	if r.Intn(3) == 0 {
+		s.CertAddrKind = 1 + r.Intn(len(staleAddrKinds)-1)
+		s.CertAddrSalt = r.Intn(1 << 16)
+	}
 	return s
 }
 
@@ -189,12 +208,48 @@ func buildPE(s peSpec) builtPE {
 		b.bodyEnd = len(img)
 		img = append(img, table...)
 	} else {
-		binary.LittleEndian.PutUint32(img[dd:], 0)
+		binary.LittleEndian.PutUint32(img[dd:], staleCertAddr(s, soh, len(img)))
 		binary.LittleEndian.PutUint32(img[dd+4:], 0)
 		b.bodyEnd = len(img)
 	}
 	b.img = img
 	return b
+}
+
+// staleCertAddr is the address field of the certificate-table directory entry of an image without a table
+// (n = file length, soh = SizeOfHeaders)
+func staleCertAddr(s peSpec, soh, n int) uint32 {
+	within := func(lo, hi int) uint32 { // a position in [lo, hi), lo when the range is empty
+		if hi <= lo {
+			return uint32(lo)
+		}
+		return uint32(lo + s.CertAddrSalt%(hi-lo))
+	}
+	hashedEnd := soh // SizeOfHeaders + the raw sizes: where the data "after the last section" starts for the hash
+	for _, z := range s.SecSizes {
+		hashedEnd += z
+	}
+	switch s.CertAddrKind {
+	case 1:
+		return 1
+	case 2:
+		return within(1, soh)
+	case 3:
+		return within(soh, hashedEnd)
+	case 4:
+		return uint32(hashedEnd)
+	case 5:
+		return within(hashedEnd+1, n)
+	case 6:
+		return uint32(n)
+	case 7:
+		return uint32((n + 7) &^ 7)
+	case 8:
+		return uint32(n + 1 + s.CertAddrSalt)
+	case 9:
+		return 0xffffffff
+	}
+	return 0
 }
 
 // splitmix64: a tiny deterministic generator so that an image is a function of its spec
@@ -212,7 +267,7 @@ func (m *splitMix) next() uint64 {
 func specCase(s peSpec) Case {
 	return Case{"op": "image", "plus": s.Plus, "lfanew": int64(s.Lfanew), "ndirs": int64(s.NDirs), "secsizes": intsI(s.SecSizes), "hdrorder": intsI(s.HdrOrder),
 		"gapafterh": int64(s.GapAfterH), "gaps": intsI(s.Gaps), "sohslack": int64(s.SohSlack), "trailing": int64(s.Trailing), "certbodies": intsI(s.CertBodies),
-		"machine": int64(s.Machine), "seed": s.Seed, "vsizes": intsI(s.VSizes)}
+		"machine": int64(s.Machine), "seed": s.Seed, "vsizes": intsI(s.VSizes), "certaddr": int64(s.CertAddrKind), "certaddrsalt": int64(s.CertAddrSalt)}
 }
 
 func intsI(xs []int) []interface{} {
@@ -244,5 +299,5 @@ func specOfCase(cs Case) peSpec {
 	plus, _ := cs["plus"].(bool)
 	return peSpec{Plus: plus, Lfanew: int(cs.I("lfanew")), NDirs: int(cs.I("ndirs")), SecSizes: caseInts(cs["secsizes"]), HdrOrder: caseInts(cs["hdrorder"]),
 		GapAfterH: int(cs.I("gapafterh")), Gaps: caseInts(cs["gaps"]), SohSlack: int(cs.I("sohslack")), Trailing: int(cs.I("trailing")), CertBodies: caseInts(cs["certbodies"]),
-		Machine: uint16(cs.I("machine")), Seed: cs.I("seed"), VSizes: caseInts(cs["vsizes"])}
+		Machine: uint16(cs.I("machine")), Seed: cs.I("seed"), VSizes: caseInts(cs["vsizes"]), CertAddrKind: int(cs.I("certaddr")), CertAddrSalt: int(cs.I("certaddrsalt"))}
 }
